@@ -483,6 +483,8 @@ _reg("esmul", 1, _t("E"), lambda E, e: E.A["es"] * e, lambda E, l: E.A["es"] * l
 _reg("ham", 1, _t("E", to="H"),
      lambda E, e: E.ift.StandardHamiltonian(e, ic_samp=E.ift.GradientNormController(iteration_limit=2)),
      None, None, oponly=True)
+# the same Hamiltonian without a sampling controller (its metric is a plain sum, its Linearization arithmetic differs)
+_reg("ham0", 1, _t("E", to="H"), lambda E, e: E.ift.StandardHamiltonian(e), None, None, oponly=True)
 
 # --- binary --------------------------------------------------------------------
 _B = _t2({("S", "S"): "S", ("0", "0"): "0"})
@@ -717,7 +719,7 @@ def ref_eval(t, E, xp, inp, guard):
         return ref_eval(t[1], E, xp, {k: ptw_ref(f, xp, v, E.A) for k, v in inp.items()}, guard)
     if name == "dtape:a":
         return ref_eval(t[1], E, xp, {"x": inp["a"]}, guard)
-    if name == "ham":
+    if name in ("ham", "ham0"):
         v = ref_eval(t[1], E, xp, inp, guard)
         pr = 0.
         for k in sorted(tree_keys(t[1])):
@@ -806,7 +808,7 @@ def ref_metric(t, E, inp, keys, cplx, path=(), root=None):
                 ref_metric(t, E, inp, keys, cplx, path + (2,), root))
     if name == "esmul":
         return E.A["es"] * ref_metric(t, E, inp, keys, cplx, path + (1,), root)
-    if name == "ham":
+    if name in ("ham", "ham0"):
         # the prior 0.5 x^dagger x acts on the Hamiltonian's OWN input (changed by wrappers above it)
         hk = sorted(tree_keys(node[1]))
         Jin = ref_jacobian(lambda d, xp: {k: ref_env(root, path, E, xp, d)[k] for k in hk}, inp, keys, cplx)
